@@ -116,7 +116,7 @@ var props = map[string]propCfg{
 	"C01": {Focus: "C01", Arms: []string{"garbage"}, Probes: []string{"c01_liveness_probe"}, Wall: 20},
 	"C02": {Focus: "C02", Arms: []string{"clean", "codec", "garbage"}, Probes: []string{"c02_fresh_compared", "content_checked"}},
 	"C03": {Focus: "C03", Arms: []string{"clean", "faults"}, Probes: []string{"c03_checked", "c03_notimp", "c03_refused", "c03_servfail"}},
-	"C04": {Focus: "C04", Arms: []string{"clean", "late", "prefetch", "cache"}, Rare: []string{"exhaust"}, RareEvery: 1500, Probes: []string{"content_checked", "cache_hit_last_quarter"}},
+	"C04": {Focus: "C04", Arms: []string{"clean", "late", "prefetch", "cache", "redis"}, Rare: []string{"exhaust"}, RareEvery: 1500, Probes: []string{"content_checked", "cache_hit_last_quarter"}},
 	"C05": {Focus: "C05", Arms: []string{"clean"}, Rare: []string{"exhaust"}, RareEvery: 1000, Probes: []string{"c05_reply_checked", "c05_wireid_checked", "c05_exhaust_completed", "c05_exhaust_rollover_seen"}},
 	"C06": {Focus: "C06", Arms: []string{"clean"}, Probes: []string{"c06_query_checked", "c06_reply_checked"}},
 	"C14": {Focus: "C14", Arms: []string{"stale", "faults"}, Rare: []string{"exhaust"}, RareEvery: 1500, Probes: []string{"c14_deadline_checked", "c14_liveness_checked", "c14_waiter_on_dead_conn"}},
